@@ -372,6 +372,10 @@ class MarkdownNormalizer(Renderer):
         # Save and set the tightness for this list
         old_tight = self._current_list_tight
         self._current_list_tight = is_tight
+        if old_tight:
+            # Nested inside an item of a tight list: no blank line before the first item,
+            # even if this list itself is loose (it would make the enclosing list loose).
+            self._suppress_item_break = True
 
         result: list[str] = []
 
